@@ -68,6 +68,28 @@ _BIN = ("add sub mul div pow maximum minimum clamp_max clamp_min logical_and "
 _BOOLBIN = "bitwise_and __and__ __or__ __xor__ __rand__ __ror__ __rxor__"
 reg(_BIN, _c("scalar", A(2.0)), _c("same-structure", lambda ctx, side: binary(ctx, side)))
 reg(_BOOLBIN, _c("bool-scalar", A(True), flavour="bool"), _c("bool-same-structure", lambda ctx, side: binary(ctx, side), flavour="bool"))
+
+
+def _stash(receiver, ctx, side):
+    """remember the receiver: the `ties` operand is built from its own values"""
+    if not hasattr(ctx, "recv"):
+        ctx.recv = {}
+    ctx.recv[side] = receiver
+
+
+def _ties(ctx, side):
+    """an operand of the receiver's class / structure whose tensors are the receiver's plus the pattern -1, 0, +1, 0: TIES at
+    every other position (comparison operators differ exactly there), smaller and greater values elsewhere"""
+    r = ctx.recv[side]
+    o = ctx.other("tc", 0)
+    rx = r.get("x") if side == "td" else r.x
+    rny = r.get(("n", "y")) if side == "td" else r.n.y
+    o.x = rx.clone() + torch.tensor([-1.0, 0.0, 1.0, 0.0])
+    o.n.y = rny.clone() + torch.tensor([0.0, 1.0, -1.0])
+    return ((o if side == "tc" else o._tensordict,), {})
+
+
+reg("__eq__ __ne__ __ge__ __gt__ __le__ __lt__", _c("ties", _ties, prepare=_stash))
 reg("__invert__", _c("bool", A(), flavour="bool"))
 reg("lerp lerp_", _c("scalar-weight", lambda ctx, side: ((ctx.other(side, 1), 0.5), {})))
 reg("addcmul addcdiv addcmul_ addcdiv_",
